@@ -12,7 +12,7 @@ CASE_TIMEOUT = "10s"
 RULE = ("random models of 2-12 types over package trees of depth 1-5 (prefix-related packages, split packages "
         "holding non-project types), implements/extends/field/call relations to project, non-project and self "
         "targets, Main classes and main methods, x merge none/header/package/both x include filters; "
-        "non-trivial = at least one relation between two project types; distinct = distinct input"
+        "plus families of prefix-related packages, colliding keys and package trees (a package holding types with two or more sub-packages holding types); non-trivial = at least one relation between two project types; distinct = distinct input"
         '; every other filtered query is observed through `coca arch -d deps.json -x FILTERS [-H] [-P]` run after an unfiltered (larger) run in the same report directory (coca_reporter/arch.dot)')
 TRUSTED_BASE = ["modelled, not verified: gographviz printer (the harness re-parses its text with gographviz and "
                 "rebuilds keys from cluster labels), Go map iteration"]
@@ -45,12 +45,15 @@ def gen_model(rng, family=None):
     pkgs = rng.sample(PKGS, npk)
     if family == "prefix_pkgs":
         pkgs = ["com.a", "com.a.b", "com.a.b.c"][:rng.randint(2, 3)] + ([rng.choice(PKGS)] if rng.random() < 0.5 else [])
+    if family == "pkg_tree":
+        # packages that hold types AND have two or more sub-packages holding types (com.a: com.a.b, com.a.d; com.a.b: ...)
+        pkgs = ["com.a", "com.a.b", "com.a.d", "com.a.b.c", "com.a.b.e"][:rng.randint(3, 5)]
     if family == "key_clash":
         pkgs = ["x.ab", "cd", "x.a", "bcd"]
     n = rng.randint(2, 12)
     types = []
     for i in range(n):
-        pkg = pkgs[i % len(pkgs)] if family in ("prefix_pkgs", "key_clash") else rng.choice(pkgs)
+        pkg = pkgs[i % len(pkgs)] if family in ("prefix_pkgs", "key_clash", "pkg_tree") else rng.choice(pkgs)
         name = rng.choice(["A", "B", "Svc", "Repo", "Ctl", "Impl", "Base"]) + str(i)
         if rng.random() < 0.08:
             name = "Main"
@@ -104,12 +107,13 @@ def cases(seed, tier):
     n_random = 300 if tier == "quick" else 10000
     out = []
     kinds = ["none", "header", "package", "both"]
-    for fam in ["prefix_pkgs", "key_clash"]:
+    for fam in ["prefix_pkgs", "key_clash", "pkg_tree"]:
         for j in range(12 if tier == "quick" else 200):
             rng = vlib.rng_for(seed, ID, fam, j)
             m, idents, pkgs = gen_model(rng, fam)
-            out.append({"name": "%s-%d" % (fam, j), "tags": [fam, "merge:header"],
-                        "input": [m, idents, "header" if j % 3 else "none", [""]]})
+            kind = "none" if j % 3 == 0 and fam != "pkg_tree" else "header"
+            out.append({"name": "%s-%d" % (fam, j), "tags": [fam, "merge:" + kind],
+                        "input": [m, idents, kind, [""]]})
     for i in range(n_random):
         rng = vlib.rng_for(seed, ID, "random", i)
         m, idents, pkgs = gen_model(rng)
